@@ -314,4 +314,7 @@ def run(chk, ctx):
     r2(chk, ctx, p, se)
     r3(chk, ctx, p, se)
     r4(chk, ctx, p, se)
+    from . import round3
+    round3.terminated_range(chk, ctx)
+    round3.sentinel_guard(chk, ctx)
     chk.assume("one terminal event per branch reaches the join (C02/C03 clauses); indexed writes to distinct slots commute")
